@@ -10,7 +10,7 @@ from pyvc import rt
 
 CONTRACT_PROPS = ["C01"]
 RULE = "seeded generation over the machine grammar of bounded/machines.py (<= 7 states), event sequences <= 5; distinct = distinct (machine, events); non-trivial = at least one configuration change"
-BOUND = "machines <= 7 states, depth <= 3, <= 5 events; 250 (quick) / 2500 (thorough) machines per engine"
+BOUND = "machines <= 7 states, depth <= 3, <= 5 events; 900+300+150 (quick) / x10 (thorough) machines, each on the sync and async engines and the pure API; families: plain, with missing action implementations (aborted transitions), with history-under-parallel and root targets"
 _world = None
 
 
@@ -34,8 +34,11 @@ def _legal(interp_or_ids, machine):
 
 
 def cases(tier, seed):
-    n = 250 if tier == "quick" else 2500
+    n = 900 if tier == "quick" else 9000
     yield from M.gen_cases(seed * 7919 + 1, n)
+    yield from M.gen_cases(seed * 7919 + 2, n // 3, features={"missing_impl": 0.08})
+    yield from M.gen_cases(seed * 7919 + 3, n // 9, features={"root_target": 0.08})
+    yield from M.gen_cases(seed * 7919 + 4, n // 6, features={"history_parallel": 0.6, "parallel": 0.6})
 
 
 def describe(case):
@@ -88,6 +91,8 @@ def post_check(case, res):
         return out
     machine = res["sync"]["interp"].machine
     for eng in ("sync", "async", "pure"):
+        if res[eng].get("spin"):
+            continue    # never-idle async run loop: C13's known finding, nothing observable here
         for k, st in enumerate(res[eng]["steps"]):
             if st["status"] in ("running", "done", "active"):
                 b = _legal(st["config"], machine)
